@@ -9,7 +9,7 @@
    and, below, the per-family conjunctions quoted by Properties/C08.v. *)
 From Coq Require Import ZArith List Bool.
 From AQ Require Export Evm.OpsModel Evm.OpsSpec Evm.OpsTableSpec
-  Evm.OpsProofsArith Evm.OpsProofsGas Evm.OpsProofsJumpdest Evm.OpsProofsTable Evm.OpsProofsMem Evm.OpsProofsEnv Evm.OpsProofsGasState.
+  Evm.OpsProofsArith Evm.OpsProofsGas Evm.OpsProofsJumpdest Evm.OpsProofsTable Evm.OpsProofsMem Evm.OpsProofsEnv Evm.OpsProofsGasState Evm.OpsProofsNarrow.
 Import ListNotations.
 Local Open Scope Z_scope.
 
@@ -207,3 +207,27 @@ Theorem state_gas_all :
   memoryGasCost memLen last ms = Ok (fee, last') -> 0 <= fee < two64 ->
   gasCreate memLen last ms = if fee + 32000 <=? maxU64 then Ok (fee + 32000, last') else Err ErrGasUintOverflow).
 Proof. exact (conj gasSStore_spec (conj gasCall_spec (conj gasCall_unaffordable (conj gasCallCode_spec (conj gasDelegateCall_spec (conj gasStaticCall_eq (conj gasSuicide_spec (conj gas_table_lookups (conj gasExtCodeCopy_formula gasCreate_formula))))))))). Qed.
+
+(* narrowing of 256-bit operands: identity under the Go guards, operands with bits above 64 give the specified result; BLOCKHASH; memory size of the call family *)
+Theorem narrowing_all :
+  (forall x, 0 <= x < two64 -> big_Uint64 x = x) /\
+  (forall k r, 0 < k -> 0 <= r < two64 ->
+  big_Uint64 (k * two64 + r) = r) /\
+  (forall getHash number num, 0 <= number < two64 -> word num ->
+  op_BLOCKHASH getHash number num = spec_BLOCKHASH getHash number num) /\
+  (forall getHash number k r,
+  0 <= number < two64 -> 0 < k -> 0 <= r -> word (k * two64 + r) ->
+  op_BLOCKHASH getHash number (k * two64 + r) = 0) /\
+  (forall k r v, 0 < k -> 0 <= r -> word (k * two64 + r) -> word v ->
+  op_BYTE (k * two64 + r) v = 0) /\
+  (forall k r v, 0 < k -> 0 <= r -> word (k * two64 + r) -> word v ->
+  op_SHL (k * two64 + r) v = 0) /\
+  (forall k r v, 0 < k -> 0 <= r -> word (k * two64 + r) -> word v ->
+  op_SHR (k * two64 + r) v = 0) /\
+  (forall k r v, 0 < k -> 0 <= r -> word (k * two64 + r) -> word v ->
+  op_SIGNEXTEND (k * two64 + r) v = v) /\
+  (forall inOff inSize retOff retSize,
+  word inOff -> word inSize -> word retOff -> word retSize ->
+  memoryCall inOff inSize retOff retSize =
+  Z.max (if retSize =? 0 then 0 else retOff + retSize) (if inSize =? 0 then 0 else inOff + inSize)).
+Proof. exact (conj narrow_id (conj narrow_high_bits_differ (conj op_BLOCKHASH_spec (conj op_BLOCKHASH_high_bits (conj op_BYTE_high_bits (conj op_SHL_high_bits (conj op_SHR_high_bits (conj op_SIGNEXTEND_high_bits memoryCall_spec)))))))). Qed.
